@@ -101,10 +101,11 @@ class C17(Prop):
             "tables, far-apart fake addresses, offsets above 32767), utimes, and system histories (generated program "
             "families with string switches, inheritance chains, includes, classes, function literals, save_types; steps "
             "compile / edit source / edit include / touch inherited / touch simul_efun + restart / nothing, distinct mtimes, "
-            "touch simul_efun without restart / parent edited (variables and functions shift) but not loaded again while its heirs are compiled / damage (truncation, bit flip) / foreign (other magic, driver_id, config_id) / "
+            "touch simul_efun without restart / parent edited (variables and functions shift) but not loaded again while its heirs are compiled / "
+            "parent compiled again but not saved again so that its binary on disk is a leftover (the header with its pragma loses it; the master refuses the save) / damage (truncation, bit flip) / foreign (other magic, driver_id, config_id) / "
             "binary moved to another name / failing compile first; pragma on top, between functions, last line, in an include, "
             "toggled; chains with unsaved parents; every reload either in the same process or each in a fresh process; "
-            "reload after every step with permuted string addresses; every decision branch of the model is taken (histogram.decision_branches); non-trivial = trace with >= 2 lines; distinct = "
+            "in half of the cases a reference compile of the current sources (own process, no binaries) before every reload, which the program loaded from a binary is compared with; reload after every step with permuted string addresses; every decision branch of the model is taken (histogram.decision_branches); non-trivial = trace with >= 2 lines; distinct = "
             "distinct canonical implementation trace")
     not_covered = ["an include file shadowed by a new file earlier in the search path: open finding C17-include-shadowed "
                    "(witness + partial theorem; replayed from the known input only, not generated)",
